@@ -21,6 +21,7 @@ RULE = ("exhaustive enumeration of all TieredIntervals with pre_length,len<=L, e
         "Hypothesis-generated shapes up to length 6 with large integers; oracle = delays as "
         "functions on times (pointwise order). non-trivial = the pair/triple differs in a tier other "
         "than the first or in cutoff (so grouping matters); distinct = distinct enumerated tuples")
+RULE += '; every comparable pair also with operands that were used before (applied to a time, printed)'
 ASSUMPTIONS = [
     "delays are compared only between equal (pre_length, len) as mosaik's callers do",
     "pairs that are pointwise incomparable in the reference carry no obligation",
